@@ -271,6 +271,8 @@ func strataOrderRule(c *core.Ctx, rule string) {
 			bad = fmt.Sprintf("evaluation %d of layer {%s} treats {%s} as extensional, want exactly the earlier layers {%s}", i, g.idb, g.edb, w.edb)
 		case g.rules != w.rules:
 			bad = fmt.Sprintf("evaluation %d of layer {%s} runs the rules {%s}, want {%s}", i, g.idb, g.rules, w.rules)
+		case g.decls != w.decls:
+			bad = fmt.Sprintf("evaluation %d of layer {%s} is given the declarations of {%s}, want those of the layer's own predicates {%s}: the fixpoint builds its delta rules from this table, so rules of later layers would fire against incomplete lower layers (and differ from the naive evaluator)", i, g.idb, g.decls, w.decls)
 		case g.store != w.store:
 			bad = fmt.Sprintf("evaluation %d writes to %s, not to the caller's store", i, g.store)
 		}
